@@ -62,7 +62,73 @@ def run(ck):
         ck.violation({"property": "C01", "kind": "model/implementation disagree; the C01 monitors still accept every observed trace",
                       "case": worst, "broken": "correspondence Ingest.sstep / PushHandler.gstep vs writer/service"}, no_input=True)
     ic.coverage_level1(ck, res)
+    run_samerows(ck)
     run_http(ck)
+
+
+def run_samerows(ck):
+    """level 5 (harness/cmd/ingest/samerows.go): service scripts whose requests carry rows ANOTHER request has already queued -- in the open
+    batch of the same worker or in the batch of another worker of the round robin.  Level 1 draws fresh row ids per request, so a
+    ProcessRequest closure whose decision depends on what is queued (seeded C01-h and its family) behaves there like the unchanged one.
+    Model side: eff takes no worker state (request_with_rows_joins_the_batch, a_request_with_rows_waits_whatever_is_queued_elsewhere)."""
+    n = ck.n(48, 1200)
+    ok, cases, tail = ic.run_harness_parallel(ck, "ingest", n, 4 if ck.quick() else 12, ck.seed + 13, extra=["--samerows"], tag="l5")
+    if not ok:
+        ck.obligation("harness ingest --samerows ran", False, tail)
+        return
+    for c in cases:
+        c["id"] += 50000000
+    broken = [c for c in cases if c.get("err")]
+    good = [c for c in cases if not c.get("err")]
+    mism, v1 = [], []
+    for k, shard in enumerate(ic.shard_cases(good)):
+        m, a, _, out = ic.eval_cases(ck, "C01_l5_%d" % k, shard)     # the C02 oracles (blocks of distinct rows) do not apply: rows repeat by construction
+        if m is None:
+            ck.obligation("repeated-rows cases evaluated inside Coq", False, out[-1500:])
+            return
+        mism += m
+        v1 += a
+    byid = {c["id"]: c for c in cases}
+    ck.obligation("harness executed every repeated-rows service script (quiescence reached, no panic)", not broken,
+                  "%d scripts; first: %s" % (len(broken), broken[0]["err"] if broken else ""))
+    ck.obligation("correspondence: model events = observed events on %d service scripts whose requests repeat rows already queued "
+                  "(same worker / another worker of the round robin; all six kinds)" % len(good), not mism, "mismatching case ids: %s" % mism[:10])
+    ck.obligation("C01 monitors accept every observed trace of the repeated-rows scripts (a request with rows is never completed by Request itself; "
+                  "success only with every cell in one accepted block)", not v1, "violating case ids: %s" % v1[:10])
+    if v1:
+        worst = ic.smallest([byid[i] for i in v1])
+
+        def still_bad(c):
+            m, a, _, _ = ic.eval_cases(ck, "C01_shrink5", [c])
+            return bool(a)
+        worst = ic.shrink(ck, "ingest", worst, still_bad)
+        ck.violation({"property": "C01", "kind": "acknowledgement discipline violated on a request that repeats rows another request had queued",
+                      "explanation": "the C01 monitors (amon_step / smon_step, model/IngestSpec.v) reject the events observed on the real services: a request carrying rows was "
+                                     "completed by Request itself, or acknowledged by a block that does not hold all of its rows (the rows sit in another request's batch, "
+                                     "whose INSERT may fail) -- Ingest.eff appends every row of a request whatever is queued (request_with_rows_joins_the_batch)",
+                      "case": worst, "replay": "harness ingest --cases <file with the case object on one line>"})
+    elif mism or broken:
+        bad = [byid[i] for i in mism] or broken
+        ck.violation({"property": "C01", "kind": "model/implementation disagree on a script whose requests repeat queued rows; the C01 monitors still accept every observed trace",
+                      "case": ic.smallest(bad), "broken": "correspondence Ingest.sstep (eff: what ProcessRequest appends does not depend on the batch) vs writer/service/impl"},
+                     no_input=True)
+    hist, kinds = {}, {}
+    rr_apart = 0
+    for c in cases:
+        hist[c.get("class", "?")] = hist.get(c.get("class", "?"), 0) + 1
+        kinds[c["svcs"][0]["kind"]] = kinds.get(c["svcs"][0]["kind"], 0) + 1
+        if (c["svcs"][0].get("par") or 1) > 1:
+            ws, base = ic.workers_of(c)
+            picks = ic.infer_picks(c, ws, base)
+            if len({picks[o["p"]] for o in c["ops"][:2] if ic.is_req(o) and o["s"] == 0}) > 1:
+                rr_apart += 1
+    ck.coverage["evaluations"] += len(cases)
+    ck.coverage["distinct_nontrivial"] += len({ic.case_key(c) for c in cases if ic.nontrivial(c)})
+    ck.coverage["rule"] += ("repeated-rows service scripts: one service of each kind in turn (every second one a round robin of 2..3 workers) [+ a bystander service], request 1 with 1..3 "
+                            "fresh rows, request 2 = the same rows / one of them / a fresh row then those rows [a third copy], flush, first INSERT refused in 3 of 4, the rows submitted "
+                            "once more, flush, drain. ")
+    ck.extra.setdefault("input_distribution", {})["repeated_rows_service_scripts"] = {
+        "classes": hist, "kind_of_the_service_under_test": kinds, "round_robin_scripts_where_the_two_requests_met_different_workers": rr_apart}
 
 
 def run_http(ck):
